@@ -897,7 +897,7 @@ func (e *Engine) Summary(fn *ssa.Function, ctx Ctx) *Summary {
 				continue
 			}
 			switch resTerms[i].Op {
-			case "const", "phi", "unk", "param":
+			case "const", "unk", "param":
 				continue
 			}
 			f = f.replace(resTerms[i], &Term{Op: "result", Idx: i})
